@@ -52,9 +52,7 @@ def judge(ctx, hs, outs, tbl, prefix=""):
         if "steps" not in o:
             continue
         nsteps += len(o["steps"])
-        r = storecmp.check_history(h, o["steps"], tbl)
-        if r:
-            n, sig, detail = r
+        for n, sig, detail in storecmp.check_history(h, o["steps"], tbl):
             ctx.diverge(prefix + sig, "after call %d of the history the observable state differs from the abstract graph" % (n + 1),
                         dict(history=[x["call"] for x in h[: n + 1]], specified=dict(res=h[n]["res"], after=h[n]["after"]),
                              observed=o["steps"][n], detail=detail))
